@@ -7,6 +7,7 @@ VERIF = os.path.dirname(os.path.abspath(__file__))
 
 # (property, obligation regex, witness name, kind)   kind: "public" (replay crate) | "private" (scratch copy + cfg(test) module)
 WITNESSES = [
+    ("C03", r"wire_decode/DomainName::deserialise/(decreases:|inv:name_read_as_an_independent_decoder_does|post:accepts_exactly_the_well_formed_names)", "c03_pointer_into_own_name", "public"),
     ("C09", r"local/From::from/post:referral_records_are_not_answer_records", "c09_referral_in_answer_section", "public"),
     ("C10", r"local/From::from/post:referral_records_are_not_answer_records", "c09_referral_in_answer_section", "public"),
     ("C06", r"upstream_filter/validate_nameserver_response/", "c06_offpath_cname_foreign_ns", "private"),
